@@ -172,6 +172,7 @@ async def watercare_mode_command(k: int, by_name: bool):
     k = concrete_cases(k, 0, 4)
     wc = new(GeckoWaterCare)
     wc._observers = []
+    wc._name = "WaterCare"
     wc._spa = SpaRec()
     wc.active_mode = None
     arg = GeckoConstants.WATERCARE_MODE_STRING[k] if by_name else k
